@@ -80,6 +80,9 @@ def run(tier):
     c.exhaustive = True
     c.assumptions = ["TLC 1.8", "property level: when the table is full an event for an already-tracked address may be counted or overflowed (code overflows)",
                      "snapshot op replicates Server::send_client_stats on library objects; force_push displacement is modelled (queue capacity) but sums are only required over popped snapshots"]
+    if tier == "thorough":
+        from checks import selftests
+        selftests.run_for(c)
     return c.finish()
 
 
